@@ -35,6 +35,9 @@ CONSTANTS
     TrustAllSet,    \* {FALSE}: client trusts only "hk"; TRUE: known_hosts=None
     HashOmit,       \* sensitivity: hash inputs left out (normally {})
     PreferServer,   \* sensitivity: _choose_alg walks the server's list
+    SignBlind,      \* sensitivity: a received mpint is read as unsigned, so
+                    \* an encoding that denotes a negative number (sign octet
+                    \* stripped) is taken for the sender's value
     EditMsgs,       \* messages the adversary may touch
     EditFields,     \* fields the adversary may touch
     Emit            \* TRUE: print one line per finished handshake
@@ -87,17 +90,18 @@ Fields(m) ==
                                  "enc_sc", "mac_cs", "mac_sc", "cmp_cs",
                                  "cmp_sc", "ff", "strict", "rest", "pad">>
       [] m = "GREQ" -> <<"req", "pad">>
-      [] m = "GGRP" -> <<"grp", "pad">>
-      [] m = "INIT" -> <<"e", "pad">>
-      [] m = "REPLY" -> <<"ks", "f", "sig", "pad">>
+      [] m = "GGRP" -> <<"grp", "menc", "pad">>
+      [] m = "INIT" -> <<"e", "menc", "pad">>
+      [] m = "REPLY" -> <<"ks", "f", "sig", "menc", "pad">>
       [] m = "PUBKEY" -> <<"ks", "kt", "pad">>
       [] m = "SECRET" -> <<"enc", "pad">>
       [] m = "DONE" -> <<"sig", "pad">>
       [] OTHER -> <<"pad">>
 (* bytes that are in no hash input and in no verified value: random        *)
 (* padding of a cleartext packet, CR before LF of a version line, banner   *)
-(* lines a server may send before its version                              *)
-Unbound == {"eol", "banner", "pad"}
+(* lines a server may send before its version; another encoding of the    *)
+(* same mpint value (RFC 4253 8 hashes the values e, f, p, g)              *)
+Unbound == {"eol", "banner", "pad", "menc"}
 
 -----------------------------------------------------------------------------
 NoKI == [cookie |-> "none", kex |-> <<>>, hostkey |-> <<>>, enc_cs |-> <<>>,
@@ -196,6 +200,11 @@ Trusted(ks) == trustAll \/ ks.key = "hk"
 Verify(ks, h, sig) == sig.key = ks.key /\ sig.h = h
 
 Fail(r) == [r EXCEPT !.st = "fail"]
+(* a group whose modulus travels without its sign octet denotes a negative *)
+(* number; read unsigned it is the group that was sent                     *)
+IsNeg(g) == g \in {"gNeg14", "gNegAlt"}
+Unsigned(g) == CASE g = "gNeg14" -> "g14" [] g = "gNegAlt" -> "gAlt"
+                 [] OTHER -> g
 HashedKI(ki) == [ki EXCEPT !.pad = "p0"]
 
 -----------------------------------------------------------------------------
@@ -205,9 +214,10 @@ Content(m) ==
     CASE m \in {"VC", "VS"} -> [v |-> r.vown, eol |-> "crlf", banner |-> "no"]
       [] m \in {"IC", "IS"} -> r.kiown
       [] m = "GREQ"   -> [req |-> "req", pad |-> "p0"]
-      [] m = "GGRP"   -> [grp |-> r.grp, pad |-> "p0"]
-      [] m = "INIT"   -> [e |-> r.e, pad |-> "p0"]
-      [] m = "REPLY"  -> [ks |-> r.ks, f |-> r.f, sig |-> r.sig, pad |-> "p0"]
+      [] m = "GGRP"   -> [grp |-> r.grp, menc |-> "canon", pad |-> "p0"]
+      [] m = "INIT"   -> [e |-> r.e, menc |-> "canon", pad |-> "p0"]
+      [] m = "REPLY"  -> [ks |-> r.ks, f |-> r.f, sig |-> r.sig,
+                          menc |-> "canon", pad |-> "p0"]
       [] m = "PUBKEY" -> [ks |-> r.ks, kt |-> r.extra.a, pad |-> "p0"]
       [] m = "SECRET" -> [enc |-> r.e, pad |-> "p0"]
       [] m = "DONE"   -> [sig |-> r.sig, pad |-> "p0"]
@@ -250,18 +260,25 @@ Recv(m, c, r) ==
             LET g == IF c.req = "req" THEN "g14" ELSE "gAlt"
             IN  [r EXCEPT !.grp = g, !.extra = [a |-> c.req, b |-> g]]
       [] m = "GGRP" ->
-            IF c.grp = "gBad" THEN Fail(r)
-            ELSE [r EXCEPT !.grp = c.grp, !.extra = [a |-> "req", b |-> c.grp],
-                           !.e = [who |-> "c", grp |-> c.grp]]
+            LET g == Unsigned(c.grp) IN
+            IF c.grp = "gBad" \/ (IsNeg(c.grp) /\ ~SignBlind) THEN Fail(r)
+            ELSE [r EXCEPT !.grp = g, !.extra = [a |-> "req", b |-> g],
+                           !.e = [who |-> "c", grp |-> g]]
       [] m = "INIT" ->
-            IF c.e.who = "invalid" THEN Fail(r)
-            ELSE ServerFinish([r EXCEPT !.e = c.e,
+            LET e == IF c.e.who = "neg" THEN [c.e EXCEPT !.who = "c"]
+                     ELSE c.e IN
+            IF c.e.who = "invalid" \/ (c.e.who = "neg" /\ ~SignBlind)
+            THEN Fail(r)
+            ELSE ServerFinish([r EXCEPT !.e = e,
                                         !.f = [who |-> "s", grp |-> r.grp],
-                                        !.k = Shared("s", c.e, r.grp)])
+                                        !.k = Shared("s", e, r.grp)])
       [] m = "REPLY" ->
-            IF c.f.who = "invalid" THEN Fail(r)
-            ELSE ClientFinish([r EXCEPT !.ks = c.ks, !.f = c.f,
-                                        !.k = Shared("c", c.f, r.grp)], c.sig)
+            LET f == IF c.f.who = "neg" THEN [c.f EXCEPT !.who = "s"]
+                     ELSE c.f IN
+            IF c.f.who = "invalid" \/ (c.f.who = "neg" /\ ~SignBlind)
+            THEN Fail(r)
+            ELSE ClientFinish([r EXCEPT !.ks = c.ks, !.f = f,
+                                        !.k = Shared("c", f, r.grp)], c.sig)
       [] m = "PUBKEY" ->
             IF c.kt = "ktBad" THEN Fail(r)
             ELSE [r EXCEPT !.ks = c.ks, !.extra = [a |-> c.kt, b |-> "none"],
@@ -286,9 +303,12 @@ Vals(fld, cur) ==
       [] fld = "strict" -> {FALSE}
       [] fld = "rest"   -> {"rX"}
       [] fld = "req"    -> {"reqX"}
-      [] fld = "grp"    -> {"gAlt", "gBad"}
+      [] fld = "grp"    -> ({"gAlt", "gBad"} \ {cur}) \cup
+                           {IF cur = "g14" THEN "gNeg14" ELSE "gNegAlt"}
+      [] fld = "menc"   -> {"noncanon"}
       [] fld \in {"e", "f"} -> {[who |-> "adv", grp |-> cur.grp],
-                                [who |-> "invalid", grp |-> "none"]}
+                                [who |-> "invalid", grp |-> "none"],
+                                [who |-> "neg", grp |-> cur.grp]}
       [] fld = "ks"     -> {[key |-> "hkX", alg |-> cur.alg]}
       [] fld = "sig"    -> {[key |-> "hkX", h |-> NoH],
                             [key |-> cur.key, h |-> NoH]}
